@@ -11,7 +11,7 @@ UNITS = [(1e-6, 1e-9), (1e-3, 1e-9), (1.0, 1e-3), (1e-6, 5e-10), (2.5e-7, 1e-10)
 FRACS = [0.0, 0.0, 0.0, 0.1, -0.1, 0.2, -0.2]   # sums of two never reach a half-grid tie
 ANCHORS = [0, 1, 2, 4, 5, 6, 8, 9, 10]
 ANGLES = [0.0, math.pi / 2, -math.pi / 2, math.pi, 0.3, -1.1, 2.0, math.pi / 4, 3 * math.pi / 2]
-MAGS = [1.0, 1.0, 2.0, 0.5, 1.5, 3.0]
+MAGS = [1.0, 1.0, 2.0, 0.5, 1.5, 3.0, 16.0, 0.0625, 1.0, 2.0, 0.5]      # includes exact powers of 16 (boundary of the GDSII real normalisation)
 
 
 def _seg_dist(a, b, c, d):
